@@ -1676,6 +1676,11 @@ func adjustedLineSource(v ssa.Value) ssa.CallInstruction {
 						return t
 					}
 				}
+			case *ssa.Phi:
+				// a counter: the values it takes are bounded by the loop's test
+				if iff, ok := t.Block().Instrs[len(t.Block().Instrs)-1].(*ssa.If); ok {
+					work = append(work, iff.Cond)
+				}
 			case *ssa.Range:
 				// ranging over a map: its keys and values are whatever was put in
 				if f != nil {
